@@ -5,35 +5,85 @@
    models in Auto/AutoModel.v, Auto/AutoMapModel.v, Auto/F32.v.
 
    [q_run ops (q_init n r) = Some (s, dss)]: s is the learn bookkeeping after the
-   history ops of createBinding / clearSlot / handleMidi on n slots, for ANY
+   history ops of createBinding / clearSlot / handleMidi on n slots (the queue
+   model alone; the theorems named C19_learn_fifo, C19_queue_inv are stated over
+   the full model m_run through the projection m_proj), for ANY
    list ops and ANY initial NRPN registers r (the constructor leaves them
    uninitialised); dss are the slots driven by each operation.  None = a
    createBinding outside the slot array (no range check in the code). *)
 From Coq Require Import List ZArith.
 From Coq Require Import Reals.
 From Flocq Require Import IEEE754.Binary IEEE754.Bits.
-From RtoscV Require Import Auto.F32 Auto.AutoModel Auto.AutoMapModel Auto.AutoProofs Auto.AutoMapProofs Auto.AutoRemapProofs Auto.FloatOrder Auto.AutoMonoProofs Auto.AutoCpProofs Auto.AutoDefaultProofs Auto.AutoLogProofs Auto.AutoRegress Auto.AutoMapRegress.
+From RtoscV Require Import Auto.F32 Auto.AutoModel Auto.AutoMapModel Auto.AutoProofs Auto.AutoMapProofs Auto.AutoRemapProofs Auto.FloatOrder Auto.AutoMonoProofs Auto.AutoCpProofs Auto.AutoDefaultProofs Auto.AutoLogProofs Auto.AutoHistProofs Auto.AutoRegress Auto.AutoMapRegress.
 Import ListNotations.
 Local Open Scope Z_scope.
 
-(* pending slots carry exactly 1..k, k = learn_queue_len *)
-Theorem C19_queue_inv : forall ops n r s dss,
-  q_run ops (q_init n r) = Some (s, dss) -> queue_inv s.
-Proof. exact run_queue_inv. Qed.
+(* ---- over histories of the FULL model m_run (what the correspondence run
+   executes).  [m_proj logf expf ops st0] is the history projected onto the
+   learn bookkeeping: a createBinding counts when it reaches the learn line (port
+   known, bindable, a free sub-automation in its slot - the early returns of
+   createBinding drop the others), a clearSlot when the slot exists, every
+   handleMidi; gain/offset/updateMapping/setSlot/clearSlotSub do not touch it. *)
+
+(* the learn bookkeeping of the full model is the queue model run on the
+   projected history *)
+Theorem C19_history_projection : forall logf_o expf_o ops st st' mss,
+  m_run logf_o expf_o ops st = Some (st', mss) ->
+  exists dss, q_run (m_proj logf_o expf_o ops st) (q st) = Some (q st', dss).
+Proof. exact m_run_proj. Qed.
 
 (* slots that asked for MIDI learn are bound, one per previously unbound
    controller, in the order in which they asked, regardless of creates and
-   clears in between: the model's history is a history of the FIFO queue
-   machine [s_step] (append on request, remove on clear, pop the head on an
-   unbound controller) with the same driven slots, and the per-slot integers
+   clears in between: the history of the full model is a history of the FIFO
+   queue machine [s_step] (append on request, remove on clear, pop the head on an
+   unbound controller) with the same driven slots dss, and the per-slot integers
    are the positions in that queue *)
-Theorem C19_learn_fifo : forall ops n r s dss,
+Theorem C19_learn_fifo : forall logf_o expf_o ops n per r st mss,
+  m_run logf_o expf_o ops (m_init n per r) = Some (st, mss) ->
+  exists a dss,
+    s_run (m_proj logf_o expf_o ops (m_init n per r)) (s_init n r) = Some (a, dss) /\
+    q_run (m_proj logf_o expf_o ops (m_init n per r)) (q_init n r) = Some (q st, dss) /\
+    abs (q st) a.
+Proof. exact m_learn_fifo. Qed.
+
+(* the driven slots are what a handleMidi of the full model sends to: setSlot of
+   each of them in order, with the raw value num/den *)
+Theorem C19_midi_drives : forall logf_o expf_o st c t v st' ms r,
+  m_step logf_o expf_o st (MMidi c t v) = Some (st', ms, r) ->
+  let '(q', ds, ret) := q_midi c t v (q st) in
+  st' = mkM q' (subs st) /\ r = ret /\ ms = flat_map (drive_msgs expf_o st') ds.
+Proof. exact m_midi_msgs. Qed.
+
+(* pending slots carry exactly 1..k, k = learn_queue_len, and no two slots are
+   ever bound to the same controller - after any history of the full model *)
+Theorem C19_queue_inv : forall logf_o expf_o ops n per r st mss,
+  m_run logf_o expf_o ops (m_init n per r) = Some (st, mss) -> queue_inv (q st) /\ uniq (q st).
+Proof. exact m_queue_inv. Qed.
+
+(* the projection is not trivial: bind with learn, bind an unknown port (dropped),
+   clear another slot, an unbound controller: slot 0 is bound to CC 20 and driven *)
+Theorem C19_learn_fifo_nonvacuous :
+  let id := fun x : f32 => x in
+  m_proj id id ex_hist (m_init 2 1 (mkR 0 0 0 0)) = [QCreate 0 true; QClear 1; QMidi 0 20 64] /\
+  match m_run id id ex_hist (m_init 2 1 (mkR 0 0 0 0)) with
+  | Some (st, mss) =>
+      map (fun x => (learning x, cc x)) (qslots (q st)) = [(-1, 20); (-1, -1)] /\
+      map (map (fun m => match m with MsgF p _ => p | _ => [] end)) mss = [[]; []; []; [[47; 102; 97]]]
+  | None => False
+  end.
+Proof. exact m_proj_nonvacuous. Qed.
+
+(* ---- the same three facts about the queue model alone (any qop history) ---- *)
+Theorem C19_queue_inv_qrun : forall ops n r s dss,
+  q_run ops (q_init n r) = Some (s, dss) -> queue_inv s.
+Proof. exact run_queue_inv. Qed.
+
+Theorem C19_learn_fifo_qrun : forall ops n r s dss,
   q_run ops (q_init n r) = Some (s, dss) ->
   exists a, s_run ops (s_init n r) = Some (a, dss) /\ abs s a.
 Proof. exact learn_fifo. Qed.
 
-(* no two slots are ever bound to the same controller *)
-Theorem C19_bindings_unique : forall ops n r s dss,
+Theorem C19_bindings_unique_qrun : forall ops n r s dss,
   q_run ops (q_init n r) = Some (s, dss) -> uniq s.
 Proof. exact run_uniq. Qed.
 
@@ -89,6 +139,30 @@ Theorem C19_addr_type : forall logf_o expf_o ops n per r st mss,
   Forall (Forall (msg_bound (bound_params ops))) mss.
 Proof. exact run_addr_type. Qed.
 
+(* ... and with a value inside that parameter's DECLARED range, after any history:
+   [msg_ok logf expf eps PS m] (Auto/AutoHistProofs.v): m goes to a parameter p of
+   PS, bindable, with p's path and type, and
+     float, linear scale: declared min <= max  ->  min <= value <= max (fle: no NaN);
+     float, log scale (under the three libm hypotheses, declared 0 < min <= max):
+                          value finite in [min*(1-eps), max*(1+eps)];
+     int: declared bounds ordered integers lo..hi in int range -> lo <= value <= hi;
+     MsgUB (the (int) conversion was undefined) ONLY for an int parameter whose
+          declared bounds are NOT ordered integers in int range ([int_bounds]);
+     toggles: true/false.
+   The history invariant behind it ([sub_decl], second conjunct): every used
+   sub-automation carries path, type, min, max and scale that createBinding
+   stored for an accepted parameter - gain, offset and updateMapping never
+   change them. *)
+Theorem C19_in_range_history : forall logf_o expf_o eps ops n per r st mss,
+  m_run logf_o expf_o ops (m_init n per r) = Some (st, mss) ->
+  Forall (Forall (msg_ok logf_o expf_o eps (bound_params ops))) mss /\
+  all_subs (sub_decl logf_o (bound_params ops)) st.
+Proof. exact run_in_range. Qed.
+
+Theorem C19_in_range_history_nonvacuous :
+  int_bounds ex_int_param 0 127 /\ bindable ex_int_param = true.
+Proof. exact int_bounds_nonvacuous. Qed.
+
 (* a float-typed linear parameter receives a value inside [min,max], whatever
    the slot value, gain and offset (NaN and infinities included): by the clamp
    on the final value, no arithmetic fact needed *)
@@ -97,6 +171,12 @@ Theorem C19_in_range : forall (expf_o : f32 -> f32) s value,
   fle (s_min s) (s_max s) ->
   exists c, sub_output expf_o s value = [MsgF (s_path s) c] /\ fle (s_min s) c /\ fle c (s_max s).
 Proof. exact float_output_in_range. Qed.
+
+Theorem C19_in_range_nonvacuous :
+  used ex_sub = true /\ s_type ex_sub = ch_f /\ s_scale ex_sub = 0 /\ fle (s_min ex_sub) (s_max ex_sub) /\
+  map (fun m => match m with MsgF _ c => bits_of_b32 c | _ => -1 end)
+      (sub_output (fun x => x) ex_sub ex_v1) = [1071644672].
+Proof. exact in_range_nonvacuous. Qed.
 
 (* an int-typed parameter with integral bounds a <= b receives an integer in [a,b] *)
 Theorem C19_in_range_int : forall (expf_o : f32 -> f32) s value a b,
@@ -107,20 +187,31 @@ Theorem C19_in_range_int : forall (expf_o : f32 -> f32) s value a b,
   exists z, sub_output expf_o s value = [MsgI (s_path s) z] /\ a <= z <= b.
 Proof. exact int_output_in_range. Qed.
 
+Theorem C19_in_range_int_nonvacuous :
+  used ex_int_sub = true /\ s_type ex_int_sub = ch_i /\
+  finite32 (s_min ex_int_sub) /\ finite32 (s_max ex_int_sub) /\
+  val (s_min ex_int_sub) = IZR 0 /\ val (s_max ex_int_sub) = IZR 127 /\
+  sub_output (fun x => x) ex_int_sub (b32_of_bits 1056964608) = [MsgI [47; 112; 97] 64].
+Proof. exact in_range_int_nonvacuous. Qed.
+
 (* toggles receive true / false (true exactly when the mapped value exceeds 1/2) *)
 Theorem C19_toggle : forall (expf_o : f32 -> f32) s value,
   used s = true -> s_type s = ch_T ->
   sub_output expf_o s value = [MsgT (s_path s) (gt32 (lin value (cp1 s) (cp3 s)) f32_half)].
 Proof. exact toggle_output. Qed.
 
-(* the value never decreases when the slot value increases (for positive gain):
-   FULL for all finite slot values.  [remap s0] is the sub-automation after
+(* the value never decreases when the slot value increases (for positive gain).
+   FULL STATEMENT: for all slot values that are numbers ("values in and outside
+   [0,1]").  PROVED (_partial): for all FINITE slot values - side condition
+   [finite32 v1], [finite32 v2]; for an infinite slot value the statement is false
+   (C19_monotone_infinite_refuted; finding class infinite-slot-value, whose
+   classifier is "one of the two slot values is infinite").  [remap s0] is the sub-automation after
    updateMapping; [nn32 (gain s0)]: the gain is not negative (0 <= gain; +inf and
    NaN gains included); the offset is arbitrary; no condition on overflow: a
    product or sum that overflows goes to the infinity of the right sign and is
    clamped, NaN (inf-inf, 0*inf) is clamped to the minimum and arises for all
    slot values or only below the step. *)
-Theorem C19_monotone : forall (expf_o : f32 -> f32) s0 v1 v2,
+Theorem C19_monotone_partial : forall (expf_o : f32 -> f32) s0 v1 v2,
   let s := remap s0 in
   used s0 = true -> s_type s0 = ch_f -> s_scale s0 = 0 ->
   finite32 (s_min s0) -> finite32 (s_max s0) -> (val (s_min s0) <= val (s_max s0))%R ->
@@ -131,7 +222,7 @@ Theorem C19_monotone : forall (expf_o : f32 -> f32) s0 v1 v2,
                 finite32 c1 /\ finite32 c2 /\ (val c1 <= val c2)%R.
 Proof. exact float_monotone_full. Qed.
 
-Theorem C19_monotone_int : forall (expf_o : f32 -> f32) s0 v1 v2 a b,
+Theorem C19_monotone_int_partial : forall (expf_o : f32 -> f32) s0 v1 v2 a b,
   let s := remap s0 in
   used s0 = true -> s_type s0 = ch_i ->
   finite32 (s_min s0) -> finite32 (s_max s0) ->
@@ -166,7 +257,8 @@ Proof. exact lin_clamp_monotone. Qed.
 
 (* what remains false: with an INFINITE slot value the statement fails (equal
    control points: inf * 0 = NaN goes to the minimum, every finite slot value to
-   the maximum).  Reproduced on the real code (notes/C19.md). *)
+   the maximum).  Reproduced on the real code (corpus/C19/findings.txt); finding
+   class infinite-slot-value. *)
 Theorem C19_monotone_infinite_refuted :
   lt32 (cp3 inf_witness_sub) (cp1 inf_witness_sub) = false /\
   fle inf_witness_v1 inf_witness_v2 /\
@@ -184,7 +276,11 @@ Theorem C19_control_points_ordered : forall s,
 Proof. exact remap_ordered. Qed.
 
 (* at the default gain and offset slot values map linearly onto min..max.
-   FULL STATEMENT (not proved): for every declared range.
+   FULL STATEMENT: for every declared range - false (C19_default_points_inexact_refuted;
+   finding class default-points-inexact, whose classifier is the negation of this
+   side condition, computed from the source's formula, plus "the emitted value is
+   what the mapping through the computed control points gives"; the oracle of the
+   correspondence run demands clamp(v*(max-min)+min) bit-exactly).
    PROVED: under the side condition [default_points_exact mn mx] (the control
    points updateMapping computes for gain 100 / offset 0 are bit-exactly the
    bounds - a decidable check, true for the ranges of C19_default_points_examples)
@@ -293,9 +389,16 @@ Theorem C19_log_in_range : forall (logf_o expf_o : f32 -> f32) (eps : R),
             (val mn * (1 - eps) <= val o <= val mx * (1 + eps))%R.
 Proof. exact log_in_range. Qed.
 
+Theorem C19_log_in_range_nonvacuous :
+  let mn := b32_of_bits 1101004800 in let mx := b32_of_bits 1184645120 in
+  used ex_log_sub = true /\ s_type ex_log_sub = ch_f /\ s_scale ex_log_sub = 1 /\
+  finite32 mn /\ finite32 mx /\ (0 < val mn)%R /\ (val mn <= val mx)%R /\
+  s_min ex_log_sub = mn /\ s_max ex_log_sub = mx.
+Proof. exact log_in_range_nonvacuous. Qed.
+
 (* and its value never decreases when the (finite) slot value increases, for every
-   gain that is not negative *)
-Theorem C19_log_monotone : forall (expf_o : f32 -> f32), exp_mono expf_o ->
+   gain that is not negative (_partial: finite slot values, as C19_monotone_partial) *)
+Theorem C19_log_monotone_partial : forall (expf_o : f32 -> f32), exp_mono expf_o ->
   forall s0 v1 v2,
   let s := remap s0 in
   used s0 = true -> s_type s0 = ch_f -> s_scale s0 = 1 ->
